@@ -325,6 +325,114 @@ func checkC02(c *Ctx) {
 			nwWant = append(nwWant, normJSON(want))
 		}
 	})
+	// a rescan that is due although no event announces it: the highest-priority
+	// directory is missing when the auto-refresh cache is created and appears later,
+	// populated (renamed into place); the very next thing asked of the cache is the
+	// injection, of devices that (mostly) resolved in the old content as well
+	c.RunCases("late", c.pick(150, 3000), 4, func(cs *Case) {
+		r := cs.R
+		root := filepath.Join(c.Scratch, sanitize(cs.Name))
+		must(os.MkdirAll(root, 0o755))
+		defer os.RemoveAll(root)
+		var real []HostNode
+		for _, h := range hosts {
+			if h.Type == "b" || h.Type == "c" || h.Type == "p" {
+				real = append(real, h)
+			}
+		}
+		p := genPop(r, root, PopOpt{Rich: true, Hosts: real})
+		anchor := filepath.Join(root, "anchor")
+		p.Phys = append(p.Phys, anchor)
+		p.Exists = append(p.Exists, true)
+		p.Conf = append([]string{anchor}, p.Conf...)
+		p.ConfPhys = append([]int{len(p.Phys) - 1}, p.ConfPhys...)
+		p.Protect = len(p.Phys) - 1
+		p.Write()
+		hi := p.ConfPhys[len(p.ConfPhys)-1]
+		if !p.Exists[hi] || hi == p.Protect {
+			c.Count("late_cases_without_a_late_directory", 1)
+			return
+		}
+		res := p.Resolve()
+		old := clonePop(p)
+		old.Exists[hi] = false
+		var keep []*PFile
+		for _, f := range old.Files {
+			if f.Phys != hi {
+				keep = append(keep, f)
+			}
+		}
+		old.Files = keep
+		resOld := old.Resolve()
+		var both, all []string
+		for q := range res.Devices {
+			all = append(all, q)
+			if _, ok := resOld.Devices[q]; ok {
+				both = append(both, q)
+			}
+		}
+		sort.Strings(both)
+		sort.Strings(all)
+		if len(both) == 0 {
+			c.Count("late_cases_without_a_device_in_both_contents", 1)
+			return
+		}
+		staged := p.Phys[hi] + ".staged"
+		must(os.Rename(p.Phys[hi], staged))
+		a, err := newAutoCache(root, anchor, p.Conf)
+		if err != nil {
+			os.Rename(staged, p.Phys[hi])
+			c.Inconclusive("no-inotify")
+			return
+		}
+		defer a.Close()
+		a.C.ListDevices()
+		must(os.Rename(staged, p.Phys[hi]))
+		var req []string
+		for _, i := range r.Perm(len(both))[:1+r.Intn(min(len(both), 4))] {
+			req = append(req, both[i])
+		}
+		if chance(r, 30) {
+			q := all[r.Intn(len(all))]
+			dup := false
+			for _, x := range req {
+				dup = dup || x == q
+			}
+			if !dup {
+				req = append(req, q)
+			}
+		}
+		var combined specs.ContainerEdits
+		met := map[string]bool{}
+		shadowChanged := false
+		for _, q := range req {
+			w := res.Devices[q]
+			if o := resOld.Devices[q]; o == nil || o.Path != w.Path {
+				shadowChanged = true
+			}
+			if !met[w.Path] {
+				met[w.Path] = true
+				appendEdits(&combined, &cloneSpec(w.File.Spec).ContainerEdits)
+			}
+			dev := cloneSpec(&specs.Spec{Devices: []specs.Device{w.Dev}}).Devices[0]
+			appendEdits(&combined, &dev.ContainerEdits)
+		}
+		initial := genOCI(r)
+		want, got := cloneOCI(initial), cloneOCI(initial)
+		if err := (&cdi.ContainerEdits{ContainerEdits: &combined}).Apply(want); err != nil {
+			return
+		}
+		unres, ierr := a.C.InjectDevices(got, req...)
+		c.Count("injections_right_after_a_directory_appeared", 1)
+		if shadowChanged {
+			c.Count("injections_whose_devices_moved_to_the_new_directory", 1)
+		}
+		c.Distinct(fmt.Sprintf("late|%d|%v", len(req), shadowChanged))
+		if ierr != nil || len(unres) > 0 || exactJSON(got) != exactJSON(want) {
+			cs.Violation("composition", map[string]string{"mode": "directory appeared since the last query"}, fmt.Sprintf("the highest-priority directory %s appeared (populated) after the last query; InjectDevices(%v) as the next query differs from the combined edit list of the present content (unresolved=%v err=%v)\n got  %s\n want %s", p.Phys[hi], req, unres, ierr, clip(normJSON(got), 1500), clip(normJSON(want), 1500)), map[string]any{"population": p.Describe(), "request": req, "late_directory": p.Phys[hi]})
+		}
+	})
+	c.Floor("injections_whose_devices_moved_to_the_new_directory", 10)
 	c.Floor("requests_spanning_2+_files", 50)
 	c.Floor("requests_with_2+_devices_of_one_file", 50)
 	c.Floor("injections_into_already_used_cache", 50)
